@@ -1,11 +1,15 @@
 package s0347
 
+type G2 struct {
+	F0x1x0 []int64
+}
+
 type G1 struct {
-	F1x0 int64
+	F0x0 int32
+	F0x1 []G2
 }
 
 type T struct {
-	F0 *int32
-	F1 G1
-	F2 []uint32
+	F0 G1
+	F1 uint32
 }
